@@ -433,3 +433,30 @@ def intersect_witness(a, b, limit=20000):
                     raise AnalysisError('intersection test exceeds %d product states' % limit)
                 queue.append(key)
     return None
+
+
+def prefix_conflict(a, b, limit=20000):
+    '''a non-empty word u in L(b) that is a prefix of some word in L(a), or None.  Used for token shadowing: ply tries the
+    token rules in definition order, so a rule b defined earlier steals the beginning of an `a` lexeme.'''
+    classes = a.classes(others=[b])
+    live = a.trim()
+    start = (frozenset(s for s in a.initial() if s in live), b.initial())
+    seen = {start: ''}
+    queue = [start]
+    while queue:
+        sa, sb = queue.pop(0)
+        w = seen[(sa, sb)]
+        if w and b.accepts_state(sb) and sa:
+            return w
+        for ch in classes:
+            na = frozenset(s for s in a.step(sa, ch) if s in live)
+            nb = b.step(sb, ch)
+            if not na or not nb:
+                continue
+            key = (na, nb)
+            if key not in seen:
+                seen[key] = w + ch
+                if len(seen) > limit:
+                    raise AnalysisError('prefix test exceeds %d product states' % limit)
+                queue.append(key)
+    return None
